@@ -132,6 +132,8 @@ func checkC10(c *Check) {
 	c10Scope(c, tables)
 	// (4) set construction
 	c10Sets(c, tables)
+	// (6) evaluator state
+	c10State(c)
 	// (5) order
 	runOrder(c, "MAP-ORDER", e, func(f *ssa.Function) bool {
 		return fnPkgPath(f) == evalPkg && !strings.HasSuffix(p.fnFile(f), "/debugger.go")
@@ -571,6 +573,135 @@ func c10Sets(c *Check, tables map[string][]*ssa.Function) {
 	if n == 0 {
 		c.Undecidedf("SET-DEDUP", "set transform", "-", "no set-typed transform path passing an appender function found")
 	}
+	// (a') whatever slice is installed as the element list of a set value must be
+	// built through the de-duplicating appender. Keyed by type, not by name: a
+	// store into Value_List.Value where the list is the Set payload of a Value.
+	isDedup := func(fn *ssa.Function) bool {
+		for _, d := range dedup {
+			if d == fn {
+				return true
+			}
+		}
+		return false
+	}
+	isPlain := func(fn *ssa.Function) bool {
+		for _, d := range plain {
+			if d == fn {
+				return true
+			}
+		}
+		return false
+	}
+	// dedupBuilt: every slice the function returns comes from a call that hands a
+	// de-duplicating appender (and no plain one) on, or from such a function.
+	var dedupBuilt func(fn *ssa.Function, depth int) (bool, string)
+	dedupBuilt = func(fn *ssa.Function, depth int) (bool, string) {
+		if fn == nil || depth > 4 || len(fn.Blocks) == 0 {
+			return false, "callee not resolved"
+		}
+		nret := 0
+		var rvs []ssa.Value
+		for _, b := range fn.Blocks {
+			if ret, ok := b.Instrs[len(b.Instrs)-1].(*ssa.Return); ok && len(ret.Results) > 0 {
+				vals, _ := returnValues(ret)
+				rvs = append(rvs, vals[0])
+			}
+		}
+		for _, rv := range rvs {
+			nret++
+			cl, ok := rv.(*ssa.Call)
+			if !ok {
+				return false, fmt.Sprintf("%s returns a slice that is not the result of an appender-driven call", fn.Name())
+			}
+			sawD := false
+			for _, a := range cl.Call.Args {
+				if af, ok := stripFuncValue(a); ok {
+					if isPlain(af) {
+						return false, fmt.Sprintf("%s builds its result with the plain appender %s", fn.Name(), af.Name())
+					}
+					if isDedup(af) {
+						sawD = true
+					}
+				}
+			}
+			if sawD {
+				continue
+			}
+			if ok, why := dedupBuilt(staticCallee(cl), depth+1); !ok {
+				return false, why
+			}
+		}
+		return nret > 0, fmt.Sprintf("%s has no slice result", fn.Name())
+	}
+	ninst := 0
+	for _, f := range p.RepoFuncs() {
+		if fnPkgPath(f) != evalPkg {
+			continue
+		}
+		eachInstr(f, func(_ *ssa.BasicBlock, i ssa.Instruction) {
+			st, ok := i.(*ssa.Store)
+			if !ok {
+				return
+			}
+			own, fld, base, ok := fieldOfAddr(st.Addr)
+			if !ok || own == nil || own.Obj().Name() != "Value_List" || fld != "Value" {
+				return
+			}
+			fromSet := derives(base, func(v ssa.Value) bool {
+				if cl, ok := v.(*ssa.Call); ok {
+					if sc := staticCallee(cl); sc != nil && sc.Name() == "GetSet" && fnPkgPath(sc) == syslPkg {
+						return true
+					}
+				}
+				if o, fl, _, ok := loadedField(v); ok && o != nil && o.Obj().Name() == "Value_Set" && fl == "Set" {
+					return true
+				}
+				return false
+			}, nil)
+			if !fromSet {
+				return
+			}
+			ninst++
+			key := fmt.Sprintf("%s|element list installed in a set", fnName(f))
+			switch x := st.Val.(type) {
+			case *ssa.Call:
+				if ok, why := dedupBuilt(staticCallee(x), 0); ok {
+					c.Okf("SET-DEDUP", key, p.pos(st.Pos()), "the slice installed as the set's elements is built through the de-duplicating appender on every return of %s", staticCallee(x).Name())
+				} else {
+					c.Flagf("SET-DEDUP", key, p.pos(st.Pos()), "the slice installed as the elements of a set value is not built through the de-duplicating appender (%s): the set can contain duplicates", why)
+				}
+			case *ssa.Phi:
+				bad := ""
+				for _, e := range x.Edges {
+					cl, isCall := e.(*ssa.Call)
+					if !isCall {
+						bad = "one incoming value is not an appender-driven call"
+						break
+					}
+					if ok, why := dedupBuilt(staticCallee(cl), 0); !ok {
+						bad = why
+						break
+					}
+				}
+				c.Cond(bad == "", "SET-DEDUP", key, p.pos(st.Pos()),
+					"every slice that can be installed as the set's elements is built through the de-duplicating appender",
+					"a slice that can be installed as the elements of a set value is not built through the de-duplicating appender ("+bad+"): the set can contain duplicates")
+			case *ssa.MakeSlice, *ssa.Const:
+				c.Okf("SET-DEDUP", key, p.pos(st.Pos()), "an empty element list is installed")
+			case *ssa.Slice:
+				if _, isAlloc := x.X.(*ssa.Alloc); isAlloc {
+					c.Okf("SET-DEDUP", key, p.pos(st.Pos()), "a literal element list is installed")
+				} else {
+					c.Flagf("SET-DEDUP", key, p.pos(st.Pos()), "a slice of unknown construction is installed as the elements of a set value")
+				}
+			default:
+				c.Flagf("SET-DEDUP", key, p.pos(st.Pos()), "a slice of unknown construction is installed as the elements of a set value")
+			}
+		})
+	}
+	if ninst == 0 {
+		c.Undecidedf("SET-DEDUP", "element list installed in a set", "-", "no store of an element list into a set value found in pkg/eval: unresolved anchor")
+	}
 	// (b) the (set,set) union operator: results come from map keys
 	for _, f := range tables["valueFunctions"] {
 		if !strings.Contains(strings.ToLower(f.Name()), "union") {
@@ -724,4 +855,206 @@ func scopeSavedAndRestored(p *Program, f *ssa.Function, depth int, seen map[*ssa
 		return any && okAll
 	}
 	return false
+}
+
+// c10State: "equal inputs always give equal results" needs the evaluator to
+// carry no state from one evaluation step into another: every write into the
+// evaluator object (exprEval) or into a package-level variable of pkg/eval, made
+// by evaluation code, is listed. Two fields are bookkeeping that no result reads
+// (the expression stack used for diagnostics, the debugger hook); any other
+// field or global written during evaluation (a cache, a counter, a memo table)
+// is reported.
+func c10State(c *Check) {
+	p := c.P
+	isEvalObj := func(t types.Type) bool { return typeIs(t, evalPkg, "exprEval") }
+	// rootField: the first field of exprEval on the access path of addr, or the
+	// package-level variable it starts from.
+	var rootOf func(v ssa.Value, d int) (string, bool)
+	rootOf = func(v ssa.Value, d int) (string, bool) {
+		if v == nil || d > 8 {
+			return "", false
+		}
+		switch x := v.(type) {
+		case *ssa.FieldAddr:
+			if own, fld, base, ok := fieldOfAddr(x); ok {
+				if own != nil && own.Obj().Name() == "exprEval" && own.Obj().Pkg() != nil && own.Obj().Pkg().Path() == evalPkg {
+					return "exprEval." + fld, true
+				}
+				return rootOf(base, d+1)
+			}
+		case *ssa.IndexAddr:
+			return rootOf(x.X, d+1)
+		case *ssa.UnOp:
+			return rootOf(x.X, d+1)
+		case *ssa.Global:
+			if x.Pkg != nil && x.Pkg.Pkg.Path() == evalPkg {
+				return "global " + x.Name(), true
+			}
+		case *ssa.Field:
+			return rootOf(x.X, d+1)
+		case *ssa.Phi:
+			for _, e := range x.Edges {
+				if r, ok := rootOf(e, d+1); ok {
+					return r, true
+				}
+			}
+		case *ssa.ChangeType:
+			return rootOf(x.X, d+1)
+		}
+		return "", false
+	}
+	_ = isEvalObj
+	n := 0
+	for _, f := range p.RepoFuncs() {
+		if fnPkgPath(f) != evalPkg || f.Name() == "init" || strings.HasSuffix(p.fnFile(f), "/debugger.go") || strings.HasSuffix(p.fnFile(f), "/repl.go") {
+			continue
+		}
+		eachInstr(f, func(_ *ssa.BasicBlock, i ssa.Instruction) {
+			var target ssa.Value
+			switch x := i.(type) {
+			case *ssa.Store:
+				target = x.Addr
+			case *ssa.MapUpdate:
+				target = x.Map
+			default:
+				return
+			}
+			root, ok := rootOf(target, 0)
+			if !ok {
+				return
+			}
+			kind := "assigns"
+			if _, isMU := i.(*ssa.MapUpdate); isMU {
+				kind = "files an entry in"
+			}
+			key := fmt.Sprintf("%s|%s %s", fnName(f), kind, root)
+			n++
+			// the constructor may fill the object it creates
+			if al := allocRoot(target); al != nil {
+				c.Okf("EVAL-STATE", key, p.pos(i.Pos()), "initialises the evaluator object it has just created")
+				return
+			}
+			// State that is a function of its key is harmless (a sound memo table,
+			// the diagnostic expression stack). State computed from evaluated values
+			// and filed under a key that does not depend on them goes stale.
+			var val, mkey ssa.Value
+			switch x := i.(type) {
+			case *ssa.Store:
+				val = x.Val
+			case *ssa.MapUpdate:
+				val, mkey = x.Value, x.Key
+			}
+			if !dependsOnRuntimeValue(val) {
+				c.Okf("EVAL-STATE", key, p.pos(i.Pos()), "the value written does not depend on any evaluated value (it is a function of the expression tree and the model)")
+				return
+			}
+			if mkey != nil && dependsOnRuntimeValue(mkey) {
+				c.Okf("EVAL-STATE", key, p.pos(i.Pos()), "memo entry keyed by the evaluated values it was computed from")
+				return
+			}
+			c.Flagf("EVAL-STATE", key, p.pos(i.Pos()), "evaluation code keeps a value computed from evaluated operands in %s under a key that does not depend on them: the next evaluation with other operand values reads the stale entry — equal inputs need not give equal results", root)
+		})
+	}
+	c.Counts["evaluator_state_writes"] = n
+}
+
+// allocRoot: the address is a field of an object allocated in the same function.
+func allocRoot(v ssa.Value) *ssa.Alloc {
+	for d := 0; d < 8 && v != nil; d++ {
+		switch x := v.(type) {
+		case *ssa.Alloc:
+			return x
+		case *ssa.FieldAddr:
+			v = x.X
+		case *ssa.IndexAddr:
+			v = x.X
+		default:
+			return nil
+		}
+	}
+	return nil
+}
+
+// dependsOnRuntimeValue: backward data dependence (through loads, selections,
+// look-up keys, arithmetic and call arguments) on a value produced by
+// evaluation: the result of a pkg/eval function returning *sysl.Value, or a
+// *sysl.Value / Scope parameter.
+func dependsOnRuntimeValue(v ssa.Value) bool {
+	seen := map[ssa.Value]bool{}
+	var rec func(v ssa.Value, d int) bool
+	rec = func(v ssa.Value, d int) bool {
+		if v == nil || seen[v] || d > 30 {
+			return false
+		}
+		seen[v] = true
+		switch x := v.(type) {
+		case *ssa.Parameter:
+			return typeIs(x.Type(), syslPkg, "Value") || typeIs(x.Type(), evalPkg, "Scope")
+		case *ssa.Call:
+			if sc := staticCallee(x); sc != nil && fnPkgPath(sc) == evalPkg && sc.Signature.Results().Len() == 1 && typeIs(sc.Signature.Results().At(0).Type(), syslPkg, "Value") {
+				return true
+			}
+			for _, a := range x.Call.Args {
+				if rec(a, d+1) {
+					return true
+				}
+			}
+			if !x.Call.IsInvoke() {
+				if _, isFn := x.Call.Value.(*ssa.Function); !isFn {
+					return rec(x.Call.Value, d+1)
+				}
+			}
+			return false
+		case *ssa.Phi:
+			for _, e := range x.Edges {
+				if rec(e, d+1) {
+					return true
+				}
+			}
+		case *ssa.Extract:
+			return rec(x.Tuple, d+1)
+		case *ssa.UnOp:
+			return rec(x.X, d+1)
+		case *ssa.BinOp:
+			return rec(x.X, d+1) || rec(x.Y, d+1)
+		case *ssa.Lookup:
+			return rec(x.X, d+1) || rec(x.Index, d+1)
+		case *ssa.Index:
+			return rec(x.X, d+1) || rec(x.Index, d+1)
+		case *ssa.IndexAddr:
+			return rec(x.X, d+1) || rec(x.Index, d+1)
+		case *ssa.FieldAddr:
+			return rec(x.X, d+1)
+		case *ssa.Field:
+			return rec(x.X, d+1)
+		case *ssa.Slice:
+			return rec(x.X, d+1)
+		case *ssa.Convert:
+			return rec(x.X, d+1)
+		case *ssa.ChangeType:
+			return rec(x.X, d+1)
+		case *ssa.MakeInterface:
+			return rec(x.X, d+1)
+		case *ssa.ChangeInterface:
+			return rec(x.X, d+1)
+		case *ssa.TypeAssert:
+			return rec(x.X, d+1)
+		case *ssa.Alloc:
+			if x.Referrers() != nil {
+				for _, r := range *x.Referrers() {
+					if st, ok := r.(*ssa.Store); ok && st.Addr == x && rec(st.Val, d+1) {
+						return true
+					}
+				}
+			}
+		case *ssa.MakeClosure:
+			for _, b := range x.Bindings {
+				if rec(b, d+1) {
+					return true
+				}
+			}
+		}
+		return false
+	}
+	return rec(v, 0)
 }
